@@ -13,7 +13,7 @@ import (
 )
 
 var (
-	regFlags         = regexp.MustCompile(`flags=\(([^)]+)\)`)
+	regFlags         = regexp.MustCompile(`flags[\t ]*=[\t ]*\(([^)]+)\)`)
 	regProfileHeader = regexp.MustCompile(`[\t ]?{\n`)
 
 	// regBlockHeader matches the header line of a profile, a sub-profile or a hat
